@@ -59,12 +59,16 @@ DERIVED_BIAS = ['sigmavMid_com', 'sigmavMid_L2com', 'r50_com', 'sigmar_L2com', '
 def gen(rng, tier):
     from e2_world import world as W
     from e2_world import catalog as C
-    world = W.gen_world(rng, max_slabs=2, max_halos=4, max_parts=2)
+    lc = rng.random() < 0.12
+    world = W.gen_world(rng, max_slabs=2, max_halos=4, max_parts=2, lc=lc)
     cleaned = bool(world['cleaned'] and rng.random() < 0.6)
     cols = valid_columns(cleaned)
+    if lc:
+        cols = [c for c in cols if 'L2' in c] + ['N', 'N_interp', 'index_halo', 'origin', 'pos_avg', 'pos_interp', 'vel_avg',
+                                                  'vel_interp', 'redshift_interp', 'npstartA', 'npoutA']
     targets = []
     for _ in range(rng.randrange(3, 7)):
-        c = rng.choice(DERIVED_BIAS) if rng.random() < 0.4 else rng.choice(cols)
+        c = rng.choice([d for d in DERIVED_BIAS if d in cols]) if rng.random() < 0.4 else rng.choice(cols)
         if c not in targets:
             targets.append(c)
     plans = []
@@ -72,6 +76,8 @@ def gen(rng, tier):
         others = [o for o in rng.sample(cols, rng.randrange(1, 5)) if o != c]
         plans.append({'col': c, 'others': others})
     sub = rng.choice([False, {'A': True, 'pid': True}, {'B': True, 'pos': True}, {'A': True, 'B': True, 'rv': True}, True])
+    if lc and isinstance(sub, dict) and 'A' not in sub:
+        sub = {'A': True, 'pos': True}
     return {'world': world, 'knobs': C.gen_knobs(rng), 'cleaned': cleaned, 'plans': plans, 'subsamples': sub,
             'convert_units': rng.random() < 0.8}
 
@@ -96,7 +102,7 @@ def run(case):
             nloads += 1
             try:
                 with C.environment(knobs, out['faults'] if nloads == 1 else None):
-                    cat = C.load(gd, cleaned=case['cleaned'], subsamples=copy.deepcopy(sub), fields=copy.deepcopy(fields),
+                    cat = C.load(gd, cleaned=case['cleaned'] or bool(world.get('lc')), subsamples=copy.deepcopy(sub), fields=copy.deepcopy(fields),
                                  convert_units=case['convert_units'])
                 return cat.halos
             except Exception as e:
@@ -150,6 +156,8 @@ def run(case):
     bump(out['probes'], 'loads-compared', nloads)
     if case['subsamples']:
         bump(out['probes'], 'with-and-without-subsamples')
+    if world.get('lc'):
+        bump(out['probes'], 'light-cone-layout')
     if any(p['col'] in DERIVED_BIAS for p in case['plans']):
         bump(out['probes'], 'derived-column-with-hidden-dependencies')
     out['events'].append(['cols', [p['col'] for p in case['plans']], nloads, nrows, case['cleaned']])
